@@ -551,7 +551,8 @@ class NetworkGraph(AbstractBaseIR):
 
                 # Build chain input: use source var directly when the group's slots are its elements in their own order
                 # (a permutation of all elements still needs explicit indexing)
-                if src_indices == list(range(n_src_var)):
+                if src_indices == list(range(n_src_var)) or n_src_var == 1:
+                    # (a scalar source is broadcast over the slots of the group; it cannot be indexed)
                     chain_in = var
                 elif G == 1:
                     chain_in = f"index({var}, {src_indices[0]})"
